@@ -270,8 +270,8 @@ def run_seeded(prop: str, root: str, rc: int, evidence_dir, jobs: int = 16) -> i
         owner = meta.get("property") or meta.get("breaks_property")
         if kind == "defect" and owner != prop:
             continue
-        if kind == "defect" and meta.get("undecided_by_design"):
-            by_design.add(d)
+        if meta.get("undecided_by_design"):
+            by_design.add(d)  # (for a refactor: recorded as not decided -- exit 2 -- by the owning check; it must never be REPORTED)
         jobs_l.append((prop, root, d, kind, open(pp, encoding="utf-8").read()))
     if not jobs_l:
         return rc
@@ -295,7 +295,7 @@ def run_seeded(prop: str, root: str, rc: int, evidence_dir, jobs: int = 16) -> i
                 summ["failures"].append({"id": name, "kind": kind, "status": status, "detail": detail})
         else:
             summ["neutral_total"] += 1
-            if status == "silent":
+            if status == "silent" or (status == "undecided" and name in by_design):
                 summ["neutral_silent"] += 1
             else:
                 summ["failures"].append({"id": name, "kind": kind, "status": status, "detail": detail})
